@@ -273,6 +273,31 @@ func c17Units(ctx *core.Ctx) []core.Unit {
 			for x := sh; x < xl; x += xs {
 				c17Point(r, bi(x), true)
 				c17Point(r, bi(x), false)
+				if x%16 == sh%16 {
+					// several consecutive recoveries at the same abscissa and at its negative
+					c17Point(r, bi(x), true)
+					c17Point(r, ref.SubP(new(big.Int), bi(x)), true)
+					c17Point(r, bi(x), true)
+					c17Point(r, bi(x), false)
+				}
+			}
+			if sh == 1 {
+				// abscissae whose ordinate is next to (p-1)/2: the choice between y and -y at its boundary
+				half := new(big.Int).Rsh(new(big.Int).Sub(bigP, bi(1)), 1)
+				for k := int64(-300); k <= 300; k++ {
+					y := new(big.Int).Add(half, bi(k))
+					y2 := ref.MulP(y, y)
+					den := ref.SubP(ref.A, ref.MulP(ref.D, y2))
+					if den.Sign() == 0 {
+						continue
+					}
+					xq := new(big.Int).ModSqrt(ref.MulP(ref.SubP(bi(1), y2), ref.InvP(den)), bigP)
+					if xq == nil {
+						continue
+					}
+					c17Point(r, xq, true)
+					c17Point(r, xq, false)
+				}
 			}
 			if sh == 0 {
 				for d := int64(1); d <= 256; d++ {
